@@ -89,7 +89,11 @@ TIMES = st.sampled_from([None, 0, 1, 2, 5, 9, 3, 1.000001, 7.5, 1004])
 @st.composite
 def s_history(draw, max_tests=4, with_run=True, with_tags=True, with_time=True, with_control=False,
               with_startless=False, with_placeholder=False, tags_after_outcome=True, test_kinds=("case",),
-              second_run=True, max_ops=30, skip_both=False, loose_runs=False):
+              second_run=True, max_ops=30, skip_both=False, loose_runs=False, tagset=None, all_tags=None):
+    # tagset / all_tags (C17): another tag alphabet - a module-level strategy for one tags() argument and the list of
+    # every tag it can yield; the defaults are TAGSET / TAGS
+    tagset = TAGSET if tagset is None else tagset
+    all_tags = TAGS if all_tags is None else all_tags
     ops = []
     in_test = False
     have_outcome = False
@@ -143,10 +147,10 @@ def s_history(draw, max_tests=4, with_run=True, with_tags=True, with_time=True, 
             ops.append({"op": "stopTest"})
             in_test = False
         elif c == "tags":
-            new = draw(TAGSET)
-            gone = draw(TAGSET) - new
+            new = draw(tagset)
+            gone = draw(tagset) - new
             if in_test and draw(st.integers(0, 5)) == 0:
-                new, gone = set(), set(TAGS)        # the test drops every tag that is current (also the run-level ones)
+                new, gone = set(), set(all_tags)     # the test drops every tag that is current (also the run-level ones)
             ops.append({"op": "tags", "new": sorted(new), "gone": sorted(gone)})
         elif c == "time":
             ops.append({"op": "time", "t": draw(TIMES)})
@@ -162,12 +166,12 @@ def s_history(draw, max_tests=4, with_run=True, with_tags=True, with_time=True, 
         elif c == "startless_skip":
             between = None
             if with_tags and draw(st.integers(0, 2)) == 0:       # a tags() call wedged between the addSkip and its stopTest
-                new = draw(TAGSET)
-                between = {"new": sorted(new), "gone": sorted(draw(TAGSET) - new)}
+                new = draw(tagset)
+                between = {"new": sorted(new), "gone": sorted(draw(tagset) - new)}
             ops.append({"op": "startless_skip", "i": ntests, "reason": draw(REASON), "tk": "case", "tags_between": between})
             ntests += 1
         elif c == "placeholder":
-            ops.append({"op": "placeholder", "i": ntests, "tags": sorted(draw(TAGSET)),
+            ops.append({"op": "placeholder", "i": ntests, "tags": sorted(draw(tagset)),
                         "kind": draw(KIND)})
             ntests += 1
         elif c == "progress":
